@@ -2,7 +2,7 @@
 P: every query-atom class __eq__ and QueryBond.__eq__ == independently written predicate, all attribute values, symbolic atomic
 numbers; P: calc_labels per-atom labels; B (checks/b08.py): SMARTS strings and matching on molecules."""
 from vlib import env
-from checks.common import make_replay, bounded_part, want, contract_sources
+from checks.common import anchored, make_replay, bounded_part, want, contract_sources
 from pysym.harness import run_cases
 
 LEVEL = 'proof'
@@ -23,6 +23,7 @@ def main(run):
                      [('chython/containers/bonds.py', 'QueryBond.__eq__'), ('chython/containers/bonds.py', 'Bond.__eq__'),
                       ('chython/containers/molecule.py', 'MoleculeContainer.calc_labels')])
     if want(run, 'T'):
+      with anchored(run, 'C08/T'):
         # setters of the query API accept exactly the documented ranges and normalise to sorted unique tuples (complete over the small domain)
         from checks.common import t_oblig
         from chython.periodictable import QueryElement, AnyElement
@@ -69,6 +70,7 @@ def main(run):
             t_oblig(run, f'query.ring_sizes={v!r} -> {exp}', got == exp, key=f'query-setter:ring_sizes:{v!r}',
                     what=f'ring_sizes set to {v!r} gives {got}, documented {exp}')
     if want(run, 'P'):
+      with anchored(run, 'C08/P'):
         run_cases(run, 'contracts.query')
         pass
     bounded_part(run, 'C08')
